@@ -425,6 +425,12 @@ class Project:
         ('attr', base_resolution, [remaining attrs])."""
         root = chain[0]
         if scope_node is not None and self.is_local(scope_node, root):
+            # a local that is bound exactly once, to a dotted name, is an alias (`python = tracer.signature.python`)
+            target = self._local_alias(scope_node, root)
+            if target is not None:
+                owner, tchain = target
+                if tchain[0] != root:
+                    return self.resolve_chain(module, tchain + chain[1:], getattr(owner, "_parent", None))
             return ("local", root)
         ns = self.module_namespace(module.name)
         if root in ns:
@@ -496,6 +502,29 @@ class Project:
         names -= declared_global
         fnode._locals = names
         return names
+
+    def _local_alias(self, scope_node, name):
+        """(function node, dotted chain) if the innermost function scope binding `name` binds it exactly once, by a plain
+        assignment of a dotted name, and `name` is not a parameter"""
+        n = scope_node
+        while n is not None:
+            if isinstance(n, (ast.FunctionDef, ast.AsyncFunctionDef)) and name in self.local_names(n):
+                a = n.args
+                if name in {x.arg for x in a.posonlyargs + a.args + a.kwonlyargs} or (a.vararg and a.vararg.arg == name) or (a.kwarg and a.kwarg.arg == name):
+                    return None
+                stores = [x for x in walk_no_nested(n) if isinstance(x, ast.Name) and x.id == name and not isinstance(x.ctx, ast.Load)]
+                if len(stores) != 1:
+                    return None
+                st = getattr(stores[0], "_parent", None)
+                if isinstance(st, ast.Assign) and len(st.targets) == 1 and st.targets[0] is stores[0]:
+                    ch = attr_chain(st.value)
+                    if ch:
+                        return n, ch
+                return None
+            if isinstance(n, ast.Lambda) and name in self.local_names(n):
+                return None
+            n = getattr(n, "_parent", None)
+        return None
 
     def is_local(self, scope_node, name):
         """Is `name` bound in scope_node or any enclosing function scope?"""
@@ -692,6 +721,10 @@ class LiteralEvaluator:
             try:
                 vals = self.p.module_var(self.m, name)
             except AnalysisError as e:
+                # a literal table imported from another module of the package
+                r = self.p.resolve_chain(self.m, [name])
+                if r and r[0] == "var" and r[1] in self.p.modules and (r[1] != self.m.name or r[2] != name):
+                    return LiteralEvaluator(self.p, self.p.modules[r[1]]).name(r[2])
                 raise NotLiteral(f"{name} is not a module-level variable") from e
             if len(vals) != 1:
                 raise NotLiteral(f"{name} assigned {len(vals)} times")
@@ -718,10 +751,27 @@ class LiteralEvaluator:
                 if k is None:
                     d.update(self.eval(v))
                 else:
-                    d[self.eval(k)] = self.eval(v)
+                    d[self.eval(k)] = self._value(v)
             return d
+        if isinstance(n, ast.DictComp) and len(n.generators) == 1 and not n.generators[0].ifs and isinstance(n.generators[0].target, ast.Name) and isinstance(n.key, ast.Name) and n.key.id == n.generators[0].target.id:
+            # {name: <anything> for name in TABLE}: the keys are the members of TABLE
+            return {k: Opaque(n.value) for k in self.eval(n.generators[0].iter)}
+        if isinstance(n, (ast.ListComp, ast.SetComp, ast.GeneratorExp)) and len(n.generators) == 1 and not n.generators[0].ifs and isinstance(n.generators[0].target, ast.Name) and isinstance(n.elt, ast.Name) and n.elt.id == n.generators[0].target.id:
+            v = self.eval(n.generators[0].iter)
+            return frozenset(v) if isinstance(n, ast.SetComp) else list(v)
         if isinstance(n, ast.Name):
             return self.name(n.id)
+        if isinstance(n, ast.Attribute):
+            # pkg.module.TABLE
+            r = self.p.resolve_expr(self.m, n)
+            if r and r[0] == "var" and r[1] in self.p.modules:
+                return LiteralEvaluator(self.p, self.p.modules[r[1]]).name(r[2])
+            raise NotLiteral(src(n))
+        if isinstance(n, ast.BinOp) and isinstance(n.op, ast.BitOr) and (isinstance(n.left, (ast.Dict, ast.DictComp)) or isinstance(n.right, (ast.Dict, ast.DictComp))):
+            a, b = self.eval(n.left), self.eval(n.right)
+            if isinstance(a, dict) and isinstance(b, dict):
+                return {**a, **b}
+            raise NotLiteral(src(n))
         if isinstance(n, ast.BinOp) and isinstance(n.op, ast.Add):
             a, b = self.eval(n.left), self.eval(n.right)
             if isinstance(a, list) and isinstance(b, list):
@@ -751,12 +801,50 @@ class LiteralEvaluator:
                 if fn.id == "sorted":
                     return sorted(v)
                 return frozenset(v)
+            if isinstance(fn, ast.Attribute) and fn.attr == "fromkeys" and isinstance(fn.value, ast.Name) and fn.value.id == "dict" and n.args:
+                return {k: Opaque(n.args[1] if len(n.args) > 1 else None) for k in self.eval(n.args[0])}
+            if isinstance(fn, ast.Name) and fn.id == "dict":
+                d = {}
+                for a in n.args:
+                    v = self.eval(a)
+                    if not isinstance(v, dict):
+                        raise NotLiteral(src(n))
+                    d.update(v)
+                for k in n.keywords:
+                    if k.arg is None:
+                        v = self.eval(k.value)
+                        if not isinstance(v, dict):
+                            raise NotLiteral(src(n))
+                        d.update(v)
+                    else:
+                        d[k.arg] = self._value(k.value)
+                return d
             if isinstance(fn, ast.Attribute) and fn.attr in ("keys", "values") and not n.args:
                 v = self.eval(fn.value)
                 if isinstance(v, dict):
                     return list(v.keys()) if fn.attr == "keys" else list(v.values())
             raise NotLiteral(src(n))
         raise NotLiteral(src(n))
+
+
+class Opaque:
+    """a dict value that is not a literal (a function, a partial ...): only its key matters to the evaluation"""
+
+    def __init__(self, node):
+        self.node = node
+
+    def __repr__(self):
+        return "<opaque>"
+
+
+def _literal_value(self, v):
+    try:
+        return self.eval(v)
+    except NotLiteral:
+        return Opaque(v)
+
+
+LiteralEvaluator._value = _literal_value
 
 
 class _SetOrdered(list):
